@@ -26,6 +26,8 @@ var c13pool = []string{
 	"^65000:100$|^65001:200$", "^(65000|65001):100$", "^65000:100|200$",
 	// out of range values and unanchored patterns
 	"^65536:1$", "^65000:65536$", "650:1", "5000:10",
+	// alternations whose members are written with leading zeros (canonical text never has them)
+	`^\d+:(0100|200)$`, "^65000:(0100|200)$",
 }
 
 func c13text(c uint32) []byte {
@@ -112,9 +114,10 @@ var c13extPool = []string{
 	"rt:65000:100", "rt:^65000:100$", "rt:^65000:.*$", `rt:^\d+:100$`, `rt:^\d+:200$`, "rt:^65000:(100|200)$",
 	"soo:^65000:100$", "rt:^65000:70000$", "rt:65000:1[0-9]+", "rt:^0650:1$", `rt:^65000:\d+$`,
 	"rt:^65000:65535$", "rt:^65000:65536$", // exact entries on both sides of the 16-bit local administrator boundary
+	"rt:^65000:(0100|200)$", `rt:^\d+:(0100|200)$`, // alternation members with leading zeros
 }
 
-var c13extSets = [][]int{{1}, {2}, {3}, {5}, {7}, {8}, {9}, {3, 4}, {1, 6}, {5, 3}, {2, 8}, {10, 7}, {11}, {11, 12}}
+var c13extSets = [][]int{{1}, {2}, {3}, {5}, {7}, {8}, {9}, {3, 4}, {1, 6}, {5, 3}, {2, 8}, {10, 7}, {11}, {11, 12}, {13}, {14}}
 
 func c13extEval(set *ExtCommunitySet) {
 	opt := []MatchOption{MATCH_OPTION_ANY, MATCH_OPTION_ALL, MATCH_OPTION_INVERT}[vChoice("opt", 3)]
